@@ -487,6 +487,37 @@ func ruleOfferPredicates(c *Ctx, rule string) {
 				case s == "LOGINDISABLED":
 					seen["LOGINDISABLED"] = true
 					c.check(fs.has("fail:(*Conn).canAuth"), rule, "availableCaps: LOGINDISABLED", i.Pos(), "advertised only on the false edge of canAuth() (in "+where+")", "LOGINDISABLED is not tied to canAuth() being false")
+					// …and whenever it is false before authentication: no further condition
+					var foreign []string
+					pd := postDominators(hf)
+					for x := range transitiveDeps(hf, pd, i.Block()) {
+						ifi, isIf := x.Instrs[len(x.Instrs)-1].(*ssa.If)
+						if !isIf {
+							continue
+						}
+						okCond := true
+						for _, a := range atomsOf(ifi.Cond, true) {
+							if call, ok := a.V.(*ssa.Call); ok {
+								if k := callKey(call); k == "(*Conn).canAuth" || strings.HasSuffix(k, ".Has") {
+									continue
+								}
+								okCond = false
+								foreign = append(foreign, callKey(call))
+								continue
+							}
+							if r, ok := loadedField(a.V); ok && r.is("Conn", "state") {
+								continue
+							}
+							if _, isPhi := a.V.(*ssa.Phi); isPhi {
+								continue
+							}
+							okCond = false
+							foreign = append(foreign, a.V.String())
+						}
+						_ = okCond
+					}
+					c.check(len(foreign) == 0, rule, "availableCaps: LOGINDISABLED whenever LOGIN is refused", instrPos(i), "depends on canAuth() and the connection state only",
+						"LOGINDISABLED is advertised only under a further condition ("+strings.Join(uniq(foreign), ", ")+"): in the other case the server refuses LOGIN without having said so, i.e. it implicitly offers credentials on an unencrypted link")
 				case s == "STARTTLS":
 					seen["STARTTLS"] = true
 					c.check(fs.has("ok:(*Conn).canStartTLS"), rule, "availableCaps: STARTTLS", i.Pos(), "advertised only on the true edge of canStartTLS() (in "+where+")", "STARTTLS is advertised where canStartTLS() is false")
